@@ -98,7 +98,7 @@ CLAIMS = {
    text="Relational contracts on the real THDM Yukawa getters, for ALL parameter values: get_zeta_f equals Table 1 of arXiv:1607.06292; a type I/II/X/Y model and "
         "the aligned model with those zeta_f return identical zeta_f, rho_f and all twelve Yukawa matrices; the aligned model (zeta_f, Delta_f) and the general model "
         "with the encoding Pi_f return identical rho_f and Yukawa matrices; two models differing only in parameters documented as ignored return identical "
-        "getters and identical Gamma_f/Pi_f after init_yukawas; validate() only warns.  Every a_mu routine reads the Yukawa sector only through these getters.  CONSTRUCTORS: THDM(Gauge_basis|Mass_basis, SM, Config) copies yukawa_type, zeta_f, Delta_f from the field of the same name, stores the SM input and the configuration passed, and calls init_gauge_couplings() then set_basis(basis) with that basis.",
+        "getters and identical Gamma_f/Pi_f after init_yukawas; validate() only warns.  Every a_mu routine reads the Yukawa sector only through these getters.  CONSTRUCTORS: THDM(Gauge_basis|Mass_basis, SM, Config) copies yukawa_type, zeta_f, Delta_f from the field of the same name, stores the SM input and the configuration passed, and calls init_gauge_couplings() then set_basis(basis) with that basis.  GETTERS: the twelve Yukawa getters have the published form Y^h = M s/v + rho c/sqrt2, Y^H = M c/v - rho s/sqrt2 with ONE pair (s, c) for quarks and leptons, Y^A = +-rho/sqrt2, Y^H+ = -rho_u^dagger V, V rho_d, rho_l.",
    note=NOTE_COMMON + "The chain from equal getters to equal a_mu is by functional determinism of the a_mu routines (they read the model only through getters: C19); "
         "running masses enter through get_mu/md/ml by contract (independent of the parametrisation).",
    technique="relational lemmas by symbolic execution of the extracted real getters + z3", design='5 C09'),
